@@ -378,6 +378,7 @@ def plan(tier, seed):
         for b0 in range(0, nops, 7 if q else 2):
             items.append(("enum", depth, a, b0, min(nops, b0 + (7 if q else 2))))
     items += [("rand", i, 60 if q else 400) for i in range(32 if q else 128)]
+    items += [("csdo-stopped", i, 0) for i in range(3)]
     return items
 
 
@@ -386,10 +387,24 @@ def work(item, ctx):
     exe = ctx["exes"]["asan"]
     kind = item[0]
     rng = random.Random(F.seed_for(ctx["seed"], "C09", *item))
-    nid = rng.choice([1, 5, 127]) if kind == "rand" else [1, 5, 127][(item[2] + item[3]) % 3]
+    nid = rng.choice([1, 5, 127]) if kind in ("rand", "csdo-stopped") else [1, 5, 127][(item[2] + item[3]) % 3]
     alpha = alphabet(nid)
     sim = S.Sim(exe, make_cfg(nid))
     try:
+        if kind == "csdo-stopped":
+            # an SDO client transfer is open when the node is stopped: its timeout ends it, but a stopped node transmits nothing
+            # except its heartbeat - no SDO abort frame either
+            tmo = [5, 20, 60][item[1]]
+            sim.cmd("csdoup 0 2000 0 4 %d" % tmo)
+            sim.rx(0, bytes([2, nid]))
+            evs = sim.cmd("tick %d" % (tmo + HB + 5))
+            res.evals += 1
+            bad = [(cid, d.hex()) for (t, cid, dlc, d, f) in S.txs(evs) if cid != 0x700 + nid]
+            if bad or len(S.cbs(evs, "csdo")) != 1:
+                res.violation("c09/stopped/csdo-timeout", "SDO client transfer open at NMT stop (timeout %d ms): the stopped node transmitted %r, %d completion callbacks (reference: heartbeats only, one callback)" % (
+                    tmo, [("%x" % c, d) for c, d in bad], len(S.cbs(evs, "csdo"))), sim=sim)
+            res.nt("csdo-stopped", item[1])
+            return res
         if kind == "enum":
             _, depth, a, b0, b1 = item
             # every sequence begins started (PREOP); INIT is reached through setmode/reset inside the sequence
